@@ -9,6 +9,41 @@ use std::panic::{catch_unwind, AssertUnwindSafe};
 
 type Buf<const N: usize> = CircularBuffer<N, u8>;
 
+/// a Hasher that keeps what it was fed, call by call (a fixed array: hashing must not allocate)
+struct Transcript {
+    buf: [u8; 4096],
+    len: usize,
+}
+
+impl Transcript {
+    fn new() -> Self {
+        Transcript { buf: [0; 4096], len: 0 }
+    }
+    fn push(&mut self, x: u8) {
+        if self.len < self.buf.len() {
+            self.buf[self.len] = x;
+            self.len += 1;
+        }
+    }
+    fn hex(&self) -> String {
+        self.buf[..self.len].iter().map(|x| format!("{:02x}", x)).collect()
+    }
+}
+
+impl std::hash::Hasher for Transcript {
+    fn finish(&self) -> u64 {
+        0
+    }
+    fn write(&mut self, bytes: &[u8]) {
+        // one record per call: length, then the bytes
+        self.push((bytes.len() >> 8) as u8);
+        self.push(bytes.len() as u8);
+        for x in bytes {
+            self.push(*x);
+        }
+    }
+}
+
 struct BDrv<const N: usize> {
     buf: *mut Buf<N>,
     off: usize,
@@ -309,6 +344,127 @@ impl<const N: usize> BDrv<N> {
                 };
                 if r.is_some() {
                     ev.ret = Ret::unit();
+                }
+            }
+            "hash" => {
+                // observers on a primitive element type (C04, C13): the transcript of Hasher calls, with the
+                // boundaries between write() calls, must not depend on the layout; `s2` is the transcript of a
+                // fresh buffer with the same logical contents, `n` says whether the two compare equal in every way
+                ev.acc = "std".to_string();
+                let contents: Vec<u8> = {
+                    let (a, c) = b.as_slices();
+                    a.iter().chain(c.iter()).copied().collect()
+                };
+                let mut fresh = Box::new(Buf::<N>::new());
+                fresh.extend_from_slice(&contents);
+                let bb: &Buf<N> = b;
+                let r = call(&mut ev, None, || {
+                    let mut hs = Transcript::new();
+                    std::hash::Hash::hash(bb, &mut hs);
+                    hs
+                });
+                if let Some(hs) = r {
+                    let mut h2 = Transcript::new();
+                    std::hash::Hash::hash(&*fresh, &mut h2);
+                    let same = catch_unwind(AssertUnwindSafe(|| {
+                        *bb == *fresh
+                            && *fresh == *bb
+                            && !(*bb != *fresh)
+                            && *bb == contents[..]
+                            && bb.cmp(&*fresh) == std::cmp::Ordering::Equal
+                            && bb.partial_cmp(&*fresh) == Some(std::cmp::Ordering::Equal)
+                            && format!("{:?}", bb) == format!("{:?}", fresh)
+                            && bb.clone() == *fresh
+                    }))
+                    .unwrap_or(false);
+                    ev.ret = Ret { k: "str", s: hs.hex(), s2: h2.hex(), n: same as i64, ..Default::default() };
+                }
+            }
+            "read_to_end" | "read_to_string" | "read_until" => {
+                // provided methods of std::io::Read / BufRead (an implementation may override them); the destination
+                // has room, so a call that allocates does so on its own account
+                ev.acc = "std".to_string();
+                let contents: Vec<u8> = {
+                    let (a, c) = b.as_slices();
+                    a.iter().chain(c.iter()).copied().collect()
+                };
+                let room = contents.len() + 64;
+                let r: Option<(Result<usize, std::io::ErrorKind>, Vec<u8>)> = match op.as_str() {
+                    "read_to_end" => {
+                        let mut dst: Vec<u8> = Vec::with_capacity(room);
+                        let r = call(&mut ev, None, || std::io::Read::read_to_end(b, &mut dst).map_err(|e| e.kind()));
+                        r.map(|r| (r, dst))
+                    }
+                    "read_to_string" => {
+                        ev.i = std::str::from_utf8(&contents).is_ok() as i64;
+                        let mut dst = String::with_capacity(room);
+                        let r = call(&mut ev, None, || std::io::Read::read_to_string(b, &mut dst).map_err(|e| e.kind()));
+                        r.map(|r| (r, dst.into_bytes()))
+                    }
+                    _ => {
+                        let mut dst: Vec<u8> = Vec::with_capacity(room);
+                        let delim = i as u8;
+                        let r = call(&mut ev, None, || std::io::BufRead::read_until(b, delim, &mut dst).map_err(|e| e.kind()));
+                        r.map(|r| (r, dst))
+                    }
+                };
+                if let Some((r, dst)) = r {
+                    ev.ret = Ret {
+                        k: if r.is_ok() { "n" } else { "err" },
+                        n: enc(r.unwrap_or(0)),
+                        s: match r {
+                            Err(k) => format!("{:?}", k),
+                            Ok(_) => String::new(),
+                        },
+                        ids: dst.iter().map(|x| *x as i64).collect(),
+                        ..Default::default()
+                    };
+                }
+            }
+            "read_vectored" => {
+                ev.acc = "std".to_string();
+                let ks: Vec<usize> = gv(st, "vals").iter().map(|x| (*x as usize).min(1 << 12)).collect();
+                ev.vals = ks.iter().map(|x| *x as i64).collect();
+                let k1 = ks.first().copied().unwrap_or(0);
+                let k2 = ks.get(1).copied().unwrap_or(0);
+                let mut d1 = vec![0xEEu8; k1];
+                let mut d2 = vec![0xEEu8; k2];
+                let r = call(&mut ev, None, || {
+                    let mut bufs = [std::io::IoSliceMut::new(&mut d1), std::io::IoSliceMut::new(&mut d2)];
+                    std::io::Read::read_vectored(b, &mut bufs).map_err(|e| e.kind())
+                });
+                if let Some(r) = r {
+                    let all: Vec<u8> = d1.iter().chain(d2.iter()).copied().collect();
+                    let n = r.unwrap_or(0).min(all.len());
+                    ev.ret = Ret {
+                        k: if r.is_ok() { "n" } else { "err" },
+                        n: enc(r.unwrap_or(0)),
+                        ids: all[..n].iter().map(|x| *x as i64).collect(),
+                        ids2: all[n..].iter().map(|x| *x as i64).collect(),
+                        ..Default::default()
+                    };
+                }
+            }
+            "write_vectored" | "write_fmt" => {
+                ev.acc = "std".to_string();
+                let ascii = op == "write_fmt";
+                let data: Vec<u8> = gv(st, "vals").iter().map(|x| if ascii { (*x as u8) & 0x7F } else { *x as u8 }).collect();
+                ev.vals = data.iter().map(|x| *x as i64).collect();
+                let cut = dec(i).min(data.len());
+                let (p1, p2) = data.split_at(cut);
+                if ascii {
+                    let (s1, s2) = (std::str::from_utf8(p1).unwrap(), std::str::from_utf8(p2).unwrap());
+                    if let Some(r) = call(&mut ev, None, || std::io::Write::write_fmt(b, format_args!("{}{}", s1, s2)).is_err()) {
+                        ev.ret = Ret { k: if r { "err" } else { "ok" }, ..Default::default() };
+                    }
+                } else {
+                    let r = call(&mut ev, None, || {
+                        let bufs = [std::io::IoSlice::new(p1), std::io::IoSlice::new(p2)];
+                        std::io::Write::write_vectored(b, &bufs).map_err(|e| e.kind())
+                    });
+                    if let Some(r) = r {
+                        ev.ret = Ret { k: if r.is_ok() { "n" } else { "err" }, n: enc(r.unwrap_or(0)), ..Default::default() };
+                    }
                 }
             }
             "poison" => {
